@@ -79,6 +79,9 @@ pub enum AbsOp {
     MarkDirty { t: u16 },
     IsClean { t: u16 },
     Sleep { ms: u16 },
+    /// n appends of 5.3 MiB: every one after the first seals a block, so n blocks are allocated
+    /// (used to reach the 100-blocks-per-file roll-over)
+    Fill { t: u16, n: u8 },
 }
 
 #[derive(Clone, Debug, Serialize, Deserialize, PartialEq, Eq, Hash)]
@@ -100,6 +103,9 @@ pub fn topic_pool() -> Vec<String> {
         "tópico-ñ-日本語".to_string(),
         "q".repeat(150),
         "with space and\ttab".to_string(),
+        // ---- beyond this point: names that do not fit the 256-byte entry header (C04 only)
+        "L".repeat(230),
+        "é".repeat(120),
     ]
 }
 
@@ -210,9 +216,25 @@ pub fn fsync_strategy() -> BoxedStrategy<Fsync> {
     .boxed()
 }
 
+/// number of pool entries that are valid topic names
+pub const VALID_TOPICS: u8 = 8;
+
 pub fn topics_strategy(max: usize) -> BoxedStrategy<Vec<u8>> {
+    proptest::sample::subsequence((0..VALID_TOPICS).collect::<Vec<u8>>(), 1..=max).prop_shuffle().boxed()
+}
+
+/// like `topics_strategy`, but half of the cases also get one topic whose name is too long
+pub fn topics_strategy_with_long(max: usize) -> BoxedStrategy<Vec<u8>> {
     let n = topic_pool().len() as u8;
-    proptest::sample::subsequence((0..n).collect::<Vec<u8>>(), 1..=max).prop_shuffle().boxed()
+    (topics_strategy(max), proptest::option::weighted(0.5, VALID_TOPICS..n), any::<u16>())
+        .prop_map(|(mut v, long, pos)| {
+            if let Some(l) = long {
+                let at = idx(pos, v.len() + 1);
+                v.insert(at, l);
+            }
+            v
+        })
+        .boxed()
 }
 
 pub fn cfg_strategy(max_topics: usize, mode: BoxedStrategy<Mode>) -> BoxedStrategy<Cfg> {
@@ -366,5 +388,35 @@ pub fn case_strategy(
 ) -> BoxedStrategy<Case> {
     (cfg_strategy(max_topics, mode), proptest::collection::vec(op_strategy(&mix, p), nops), drain_strategy())
         .prop_map(|(cfg, ops, drain)| Case { cfg, ops, drain })
+        .boxed()
+}
+
+pub fn case_strategy_topics(
+    mix: Mix,
+    p: SizeProfile,
+    nops: std::ops::Range<usize>,
+    max_topics: usize,
+    mode: BoxedStrategy<Mode>,
+    with_long: bool,
+) -> BoxedStrategy<Case> {
+    let topics = if with_long { topics_strategy_with_long(max_topics) } else { topics_strategy(max_topics) };
+    ((mode, fsync_strategy(), any::<bool>(), topics).prop_map(|(mode, fsync, fd, topics)| Cfg { mode, fsync, fd, topics }), proptest::collection::vec(op_strategy(&mix, p), nops), drain_strategy())
+        .prop_map(|(cfg, ops, drain)| Case { cfg, ops, drain })
+        .boxed()
+}
+
+/// A history that starts by allocating 96..=99 blocks, so that the generated operations after
+/// it cross the file roll-over (block 101 goes to a new WAL file).
+pub fn fileroll_case_strategy(mix: Mix, nops: std::ops::Range<usize>, max_topics: usize, mode: BoxedStrategy<Mode>) -> BoxedStrategy<Case> {
+    (
+        cfg_strategy(max_topics, mode),
+        (any::<u16>(), 96u8..=99),
+        proptest::collection::vec(op_strategy(&mix, SizeProfile::Block), nops),
+        drain_strategy(),
+    )
+        .prop_map(|(cfg, (t, n), mut ops, drain)| {
+            ops.insert(0, AbsOp::Fill { t, n });
+            Case { cfg, ops, drain }
+        })
         .boxed()
 }
